@@ -141,4 +141,21 @@ def run(tier, seed, replay=None):
             diff = [(pi, tr.get(pi), tm.get(pi)) for pi in sorted(set(tr) | set(tm)) if tr.get(pi) != tm.get(pi)]
             rep.oracle_failures.append({**cj, "clause": "macro program and hand-written encoding dispatch differently", "differences": diff[:5]})
     rep.extra["feature_pairs_covered"] = len(pairs)
+    # inherent blocks (documented feature): the hand-written counterpart is one marker trait per block (the shadow program);
+    # whenever rustc accepts that and no probe satisfies two blocks, the macro must accept the invocation and its expansion compile
+    from .. import progcheck as PC
+    iplans = [g.inherent() for _ in range(n // 5)]
+    for ev in PC.evaluate(so, iplans):
+        plan = ev.plan
+        if not ev.shadow_ok or ev.overlap_probes():
+            rep.count("inherent:control-rejected-or-overlapping")
+            continue
+        rep.case(plan.invocation_text(), True)
+        rep.count("feature:inherent")
+        if any(m_.const_params for f_ in plan.families for m_ in f_.members):
+            rep.count("feature:inherent-const-parameter")
+        if not ev.macro_ok:
+            rep.oracle_failures.append({"clause": "inherent blocks that rustc accepts as impls of distinct marker traits are rejected by the macro or its expansion does not compile",
+                                        "first_error": ev.first_error(), "invocation": plan.invocation_text(), "macro_program": plan.macro_program(),
+                                        "control_program": plan.shadow_program()})
     return rep.finish()
